@@ -135,6 +135,25 @@ def correspondence(rep, ctx):
             if abs(x - y) > Fraction(1, 10**12) * max(abs(x), abs(y)) and max(abs(x), abs(y)) > Fraction(1, 10**290):
                 fail("hp-time-additivity", desc, f"{nm}: {a[nm]!r} vs {b[nm]!r}")
                 break
+    # ---------------- very short-lived nuclides: k equal steps vs one step, durations of nanoseconds
+    for i in gen.radio:
+        if float(view.rate[i]) > 1.0e3:
+            nm = view.names[i]
+            T = float(1 / view.rate[i])
+            for tot_t, k in ((min(T, 3.0e-8), 3), (T / 7, 4)):
+                inv = rd.Inventory({nm: 1.0e6}, "num")
+                cur = inv
+                for _ in range(k):
+                    cur = cur.decay(tot_t / k, "s")
+                one = inv.decay(tot_t, "s").numbers()
+                chained = cur.numbers()
+                rep.case(("tiny-steps", nm, tot_t, k))
+                gen._count("split:tiny-steps")
+                for n_ in one:
+                    if abs(F(chained[n_]) - F(one[n_])) > (k + 1) * TOL * 10**6:
+                        fail("time-additivity", f"Inventory({{{nm!r}: 1e6}}) in {k} steps of {tot_t / k!r} s vs one step of {tot_t!r} s",
+                             f"{n_}: chained {chained[n_]!r} vs single {one[n_]!r}")
+                        break
     # ---------------- an inventory used, changed in place, used again == a fresh inventory with the same amounts
     from decaylib import mutated_object_block
     bad += mutated_object_block(rep, ctx, "c07/mutated-object", hp_too=True, nseq=(24 if thorough else 6))
